@@ -252,6 +252,11 @@ def _token_exprs(tree: ast.AST) -> list[tuple[str, ast.AST]]:
             left = ast.unparse(n.left)
             if left.endswith(".type") or left in ("token_type",):
                 comp = n.comparators[0]
+                if isinstance(comp, ast.Name):
+                    # a local naming the tuple of token types
+                    src = [a for a in ast.walk(tree) if isinstance(a, ast.Assign) and len(a.targets) == 1 and isinstance(a.targets[0], ast.Name) and a.targets[0].id == comp.id]
+                    if len(src) == 1:
+                        comp = src[0].value
                 if isinstance(comp, ast.Constant) and isinstance(comp.value, str):
                     out.append((comp.value, n))
                 else:
